@@ -19,7 +19,7 @@ ID = "C19"
 SHARDS = {"quick": 8, "thorough": 16}
 RULE = ("tables of 1-4 variables (documented file-name patterns) on grids of 9-33 temperatures x 9-33 pressures from smooth "
         "g(T,P); requested T or P anywhere in range but not within 1 % of a half-way point; geotherm files with 3-30 rows "
-        "(extra depth column; numbers written as floats or as whole numbers without decimal point) through grid nodes and between them; non-trivial = >= 2 variables or a request strictly between "
+        "(extra depth column; numbers written as floats or as whole numbers without decimal point) through grid nodes, a few 1e-6 (relative) next to them, and between them; non-trivial = >= 2 variables or a request strictly between "
         "nodes; distinct by the drawn case")
 ASSUMPTIONS = [
     "printed precision of pandas to_string: 5e-6*max(1,|x|)",
@@ -49,7 +49,9 @@ def cases(draw):
             "cell_frac": draw(st.one_of(st.just(0.0), st.floats(0.02, 0.48), st.floats(0.52, 0.98))),
             "hide": draw(st.booleans()), "geo_rows": draw(st.integers(3, 30)), "geo_nodes": draw(st.booleans()),
             # how the numbers of the geotherm file are written: floats, or whole numbers without a decimal point
-            "geo_fmt": draw(st.sampled_from(["float", "float", "int", "int-PT"]))}
+            "geo_fmt": draw(st.sampled_from(["float", "float", "int", "int-PT"])),
+            # geotherm points a few 1e-6 (relative) away from grid nodes: not nodes
+            "geo_near": draw(st.sampled_from([False, False, True]))}
 
 
 def write_tables(d, c, nt=None, npr=None):
@@ -139,6 +141,11 @@ def geotherm_text(c, T, P, rng):
     depth = np.linspace(10.0, 2800.0, n)
     fmt = c.get("geo_fmt", "float")
     at_nodes = c["geo_nodes"]
+    if c["geo_nodes"] and c.get("geo_near"):
+        fmt = "float"
+        at_nodes = False
+        gp = np.clip(gp * (1.0 + rng.choice([-1.0, 1.0], n) * rng.uniform(1e-6, 9e-6, n)), P[0], P[-1])
+        gt = np.clip(gt * (1.0 + rng.choice([-1.0, 1.0], n) * rng.uniform(1e-6, 9e-6, n)), T[0], T[-1])
     if fmt != "float":
         # whole-number P and T (a geotherm typed by hand): still inside the tabulated range
         gp2 = np.clip(np.round(gp), np.ceil(P[0]), np.floor(P[-1]))
@@ -191,6 +198,19 @@ def geotherm_oracle(ctx, c):
                     j = bad[0]
                     raise PropertyViolation("C19/geotherm/node-value", "%s at grid node (P=%r, T=%r): got %r, table entry %r" % (
                         name, gp[j], gt[j], vals[j, 3 + n], float(want[j])), c)
+            if c["geo_nodes"] and c.get("geo_near") and refine == 1:
+                # next to a node every reasonable interpolant of the table gives the same value to printed precision:
+                # own bicubic spline, with its distance to the bilinear interpolant as error scale
+                from scipy.interpolate import RectBivariateSpline, RegularGridInterpolator
+                tabv = tabs[name](T[:, None], P[None, :])
+                cub = RectBivariateSpline(T, P, tabv, kx=3, ky=3, s=0).ev(gt, gp)
+                lin = RegularGridInterpolator((T, P), tabv)(np.column_stack([gt, gp]))
+                tol = 5.5e-6 * np.maximum(1.0, np.abs(cub)) + 3 * np.abs(cub - lin)
+                bad = np.abs(vals[:, 3 + n] - cub) > tol
+                if np.any(bad):
+                    j = int(np.argmax(bad))
+                    raise PropertyViolation("C19/geotherm/near-node-value", "%s at (P=%r, T=%r), a few 1e-6 (relative) away from a grid node: got %r, interpolated table %r (tolerance %.2g)" % (
+                        name, gp[j], gt[j], vals[j, 3 + n], float(cub[j]), float(tol[j])), c)
             err = max(err, float(np.max(dev)))
         errs.append((err, scale))
         if at_nodes:
@@ -216,7 +236,7 @@ def sub_geotherm(ctx):
     def body(c):
         geotherm_oracle(ctx, c)
         ctx.case(dict(c, geotherm=True), len(c["vars"]) >= 2 or not c["geo_nodes"],
-                 classes=["geotherm-nodes" if c["geo_nodes"] else "geotherm-between", "nvar=%d" % len(c["vars"]), "geotherm-numbers=" + c.get("geo_fmt", "float")])
+                 classes=["geotherm-nodes" if c["geo_nodes"] else "geotherm-between", "nvar=%d" % len(c["vars"]), "geotherm-numbers=" + c.get("geo_fmt", "float")] + (["geotherm-next-to-nodes"] if c["geo_nodes"] and c.get("geo_near") else []))
 
     ctx.run_given(body, cases(), max_examples=ctx.n(120, 5000))
 
